@@ -12,9 +12,20 @@
        node of a sequential history of atomic operations (C16_interleave_sequential), a reachable
        node (C16_interleave_reach), so that what is proved of reachable nodes holds of it, e.g. its
        chain is hash-linked (C16_interleave_chain_linked);
-     - without [quiet_step] (D17) a schedule ends in a chain with a transaction spending an output
-       that no transaction of the chain creates, which neither sequential order of the same two
-       operations does (C16_interleave_stale_view_refuted).
+     - the condition can be weakened to exclude exactly the harmful overlaps ([quiet_step'],
+       [sched_ok']): a sync round may change the chain state while a tick is in flight if the tip it
+       installs is not dated before the tick, for V4 is then refused whatever V1..V3 have read
+       (C16_stale_tick_refused), and while a submission is in flight if the submission has made
+       its three reads, for A4 then does what the atomic submission does before the round: the
+       history puts it there (C16_interleave_sequential_refined, C16_interleave_reach_refined;
+       C16_sched_ok_refines);
+     - both conditions are closed under prefixes, so the node is reachable, and its chain
+       hash-linked, at every moment of the run (C16_interleave_always_reach,
+       C16_interleave_always_reach_refined);
+     - outside [sched_ok'] (D17: a tick in flight, a tip installed that is dated before it) a
+       schedule ends in a chain with a transaction spending an output that no transaction of the
+       chain creates, which neither sequential order of the same two operations does
+       (C16_interleave_stale_view_refuted).
    Only theorems closed by [exact] of lemmas of proofs/Interleave_lemmas.v, and examples. *)
 From RV Require Import model.Base model.Ledger model.Registry model.Chain model.Sync model.Pool
      model.Reach model.Interleave proofs.Interleave_lemmas.
@@ -132,6 +143,75 @@ Theorem C16_interleave_chain_linked :
       (chain (n_c (i_n (irun value_fn addr_of sig_ok H gen_id S validator (istate_of n0) l)))).
 Proof. exact interleave_chain_linked. Qed.
 
+(* ---- B'. the refined condition ---- *)
+
+(* a tick not after the tip is refused whatever its view: by the registry copy not applying or by
+   AddBlock; the node is left as it was *)
+Theorem C16_stale_tick_refused :
+  forall (value_fn : N -> bool -> Z -> N) (addr_of : string -> string) (sig_ok : input -> bool)
+         (H : block -> hash) (gen_id : slice input -> slice output -> Z -> string)
+         (S : settings) (validator : string)
+         (n : node) (l : Z) (x : list tx) (u : ureg) (ts : Z) (perm : list nat),
+    chain (n_c n) <> [] -> (ts <= last_block_ts (chain (n_c n)))%Z ->
+    exists e,
+      validate_view value_fn addr_of sig_ok H gen_id S validator l x u n ts perm = (n, Refused e) /\
+      (e = ETime \/ update_utxos u x l = Err e).
+Proof. exact validate_view_tip_not_before. Qed.
+
+Theorem C16_sched_ok_refines :
+  forall (value_fn : N -> bool -> Z -> N) (addr_of : string -> string) (sig_ok : input -> bool)
+         (H : block -> hash) (gen_id : slice input -> slice output -> Z -> string)
+         (S : settings) (validator : string) (l : list iop) (s : istate),
+    sched_ok value_fn addr_of sig_ok H gen_id S validator s l ->
+    sched_ok' value_fn addr_of sig_ok H gen_id S validator s l.
+Proof. exact sched_ok_refines. Qed.
+
+Theorem C16_interleave_sequential_refined :
+  forall (value_fn : N -> bool -> Z -> N) (addr_of : string -> string) (sig_ok : input -> bool)
+         (H : block -> hash) (gen_id : slice input -> slice output -> Z -> string)
+         (S : settings) (validator : string) (n0 : node) (l : list iop),
+    sched_ok' value_fn addr_of sig_ok H gen_id S validator (istate_of n0) l ->
+    exists ops : list op,
+      ops_ok value_fn addr_of sig_ok H gen_id S validator n0 ops /\
+      fold_left (step value_fn addr_of sig_ok H gen_id S validator) ops n0
+      = i_n (irun value_fn addr_of sig_ok H gen_id S validator (istate_of n0) l).
+Proof. exact interleave_sequential_refined. Qed.
+
+Theorem C16_interleave_reach_refined :
+  forall (value_fn : N -> bool -> Z -> N) (addr_of : string -> string) (sig_ok : input -> bool)
+         (H : block -> hash) (gen_id : slice input -> slice output -> Z -> string)
+         (S : settings) (validator : string) (n0 : node) (l : list iop),
+    reach value_fn addr_of sig_ok H gen_id S validator n0 ->
+    sched_ok' value_fn addr_of sig_ok H gen_id S validator (istate_of n0) l ->
+    reach value_fn addr_of sig_ok H gen_id S validator
+          (i_n (irun value_fn addr_of sig_ok H gen_id S validator (istate_of n0) l)).
+Proof. exact interleave_reach_refined. Qed.
+
+(* at every moment of the run *)
+Theorem C16_interleave_always_reach :
+  forall (value_fn : N -> bool -> Z -> N) (addr_of : string -> string) (sig_ok : input -> bool)
+         (H : block -> hash) (gen_id : slice input -> slice output -> Z -> string)
+         (S : settings) (validator : string) (n0 : node) (l1 l2 : list iop),
+    reach value_fn addr_of sig_ok H gen_id S validator n0 ->
+    sched_ok value_fn addr_of sig_ok H gen_id S validator (istate_of n0) (l1 ++ l2) ->
+    reach value_fn addr_of sig_ok H gen_id S validator
+          (i_n (irun value_fn addr_of sig_ok H gen_id S validator (istate_of n0) l1)) /\
+    chain_linked H
+      (chain (n_c (i_n (irun value_fn addr_of sig_ok H gen_id S validator (istate_of n0) l1)))).
+Proof. exact interleave_always_reach. Qed.
+
+Theorem C16_interleave_always_reach_refined :
+  forall (value_fn : N -> bool -> Z -> N) (addr_of : string -> string) (sig_ok : input -> bool)
+         (H : block -> hash) (gen_id : slice input -> slice output -> Z -> string)
+         (S : settings) (validator : string) (n0 : node) (l1 l2 : list iop),
+    reach value_fn addr_of sig_ok H gen_id S validator n0 ->
+    sched_ok' value_fn addr_of sig_ok H gen_id S validator (istate_of n0) (l1 ++ l2) ->
+    reach value_fn addr_of sig_ok H gen_id S validator
+          (i_n (irun value_fn addr_of sig_ok H gen_id S validator (istate_of n0) l1)) /\
+    chain_linked H
+      (chain (n_c (i_n (irun value_fn addr_of sig_ok H gen_id S validator (istate_of n0) l1)))).
+Proof. exact interleave_always_reach_refined. Qed.
+
 (* ---- C. the condition is needed ---- *)
 
 Theorem C16_interleave_stale_view_refuted :
@@ -146,6 +226,7 @@ Theorem C16_interleave_stale_view_refuted :
     chain_inputs_known (chain (n_c n0)) = true /\
     sched_ops_ok value_fn addr_of sig_ok H gen_id S validator (istate_of n0) l /\
     ~ sched_ok value_fn addr_of sig_ok H gen_id S validator (istate_of n0) l /\
+    ~ sched_ok' value_fn addr_of sig_ok H gen_id S validator (istate_of n0) l /\
     chain_inputs_known
       (chain (n_c (i_n (irun value_fn addr_of sig_ok H gen_id S validator (istate_of n0) l))))
     = false /\
@@ -207,6 +288,55 @@ Example C16_stale_final_chain :
   /\ map i_ref (ins InterleaveExample.t1) = ["VK"%string].
 Proof. vm_compute. split; reflexivity. Qed.
 
+(* a schedule that satisfies [sched_ok'] and not [sched_ok]: from the reachable node with one
+   block and "t1" pooled, the tick 30 is in flight when a sync round installs the neighbor's chain
+   whose tip is dated 30; V4 is refused: the run is the sync round alone, "t1" stays pooled *)
+Example C16_refused_sched_refined_only :
+  let vf := InterleaveExample.vf in
+  let ao := InterleaveExample.ao in
+  let so := InterleaveExample.so in
+  let Ho := InterleaveExample.Ho in
+  let go := InterleaveExample.go in
+  let St := InterleaveExample.St in
+  let n0 := InterleaveExample.n0 in
+  let nb := InterleaveExample.nbW3 in
+  let l := [IV1 30; IV2; IV3; IU1; IU2; IU3 40 [nb] EmptyString; IV4 [0]] in
+  reach vf ao so Ho go St "V"%string n0 /\
+  sched_ok' vf ao so Ho go St "V"%string (istate_of n0) l /\
+  ~ sched_ok vf ao so Ho go St "V"%string (istate_of n0) l /\
+  i_n (irun vf ao so Ho go St "V"%string (istate_of n0) l)
+  = fold_left (step vf ao so Ho go St "V"%string) [OpUpdate 40 [nb] EmptyString] n0 /\
+  map b_ts (chain (n_c (i_n (irun vf ao so Ho go St "V"%string (istate_of n0) l))))
+  = [10%Z; 20%Z; 30%Z] /\
+  pool_ids (i_n (irun vf ao so Ho go St "V"%string (istate_of n0) l)) = ["t1"%string].
+Proof.
+  exact (conj InterleaveExample.n0_reach
+        (conj InterleaveExample.refused_sched_ok'
+        (conj InterleaveExample.refused_sched_not_quiet InterleaveExample.refused_result))).
+Qed.
+
+(* a submission overtaken by a sync round after its three reads (the tick in flight is doomed by
+   the same round): the history is the submission, then the round; in the other order the
+   submission is refused *)
+Example C16_overtaken_sched_refined :
+  let vf := InterleaveExample.vf in
+  let ao := InterleaveExample.ao in
+  let so := InterleaveExample.so in
+  let Ho := InterleaveExample.Ho in
+  let go := InterleaveExample.go in
+  let St := InterleaveExample.St in
+  let h1 := InterleaveExample.h1 in
+  let t1 := InterleaveExample.t1 in
+  let nb := InterleaveExample.nbW3 in
+  let l := [IV1 30; IA1 t1; IA2; IA3; IU1; IU2; IU3 40 [nb] EmptyString; IA4; IV2; IV3; IV4 [0]] in
+  sched_ok' vf ao so Ho go St "V"%string (istate_of h1) l /\
+  i_n (irun vf ao so Ho go St "V"%string (istate_of h1) l)
+  = fold_left (step vf ao so Ho go St "V"%string) [OpAdd t1; OpUpdate 40 [nb] EmptyString] h1 /\
+  pool_ids (i_n (irun vf ao so Ho go St "V"%string (istate_of h1) l)) = ["t1"%string] /\
+  pool_ids (fold_left (step vf ao so Ho go St "V"%string) [OpUpdate 40 [nb] EmptyString; OpAdd t1] h1)
+  = [].
+Proof. exact (conj InterleaveExample.overtaken_sched_ok' InterleaveExample.overtaken_result). Qed.
+
 Print Assumptions C16_view_fresh_validate.
 Print Assumptions C16_view_fresh_add.
 Print Assumptions C16_view_fresh_update.
@@ -216,4 +346,10 @@ Print Assumptions C16_seq_atomic_update.
 Print Assumptions C16_interleave_sequential.
 Print Assumptions C16_interleave_reach.
 Print Assumptions C16_interleave_chain_linked.
+Print Assumptions C16_stale_tick_refused.
+Print Assumptions C16_sched_ok_refines.
+Print Assumptions C16_interleave_sequential_refined.
+Print Assumptions C16_interleave_reach_refined.
+Print Assumptions C16_interleave_always_reach.
+Print Assumptions C16_interleave_always_reach_refined.
 Print Assumptions C16_interleave_stale_view_refuted.
